@@ -17,7 +17,8 @@ RULE = ('Three generated sub-domains. (hist) insertion histories into a MutableN
         'be the strict total order of the pre-order numbering, identically for the three representations. (expr) union laws A|B = B|A, '
         '(A|B)|C = A|(B|C), A|A = A and sortedness on sequences delivered by the node-list overload for generated node-set expressions. '
         'Non-trivial: history with >= 2 documents or an insertion that is not an append; every pairs case with >= 4 nodes; every expr case with '
-        '>= 2 selected nodes. distinct = distinct case text.')
+        '>= 2 selected nodes. distinct = distinct case text.'
+        ' A fifth of the expression cases have operands on the namespace axis (native form): for these only what needs no model is judged - no duplicates and the union laws as equal sequences.')
 ASSUMPTIONS = ['pre-order numbering of vf.model (root, element, attributes, children) is document order; order among the attributes of one '
                'element is not judged', 'order between different documents is not judged, only contiguity']
 
